@@ -90,6 +90,47 @@ type c34Entry struct {
 
 const c34New = 9000
 
+// c34Craft adds a snapshot whose root has two intact files and a directory whose tree blob is
+// stored under its true SHA-256 but cannot be decoded: either from its first token
+// ("crafted-undecodable-tree") or only after a first valid node ("crafted-midlist-decode-error").
+func c34Craft(ctx context.Context, repo *repository.Repository, rng *vrng, variant string) error {
+	d1, d2 := rng.bytes(200+rng.intn(300)), rng.bytes(100+rng.intn(300))
+	bad := `{"nodes":[{"name":"a","type":"file","mode":420,"content":[]},{"name":5,"type":"file"},{"name":"c","type":"file","content":[]}]}` + "\n"
+	if variant == "crafted-undecodable-tree" {
+		bad = `["this is not a tree"]` + "\n"
+	}
+	var rootID restic.ID
+	err := repo.WithBlobUploader(ctx, func(ctx context.Context, up restic.BlobSaverWithAsync) error {
+		i1, _, _, err := up.SaveBlob(ctx, restic.DataBlob, d1, restic.ID{}, false)
+		if err != nil {
+			return err
+		}
+		i2, _, _, err := up.SaveBlob(ctx, restic.DataBlob, d2, restic.ID{}, false)
+		if err != nil {
+			return err
+		}
+		badID, _, _, err := up.SaveBlob(ctx, restic.TreeBlob, []byte(bad), restic.ID{}, false)
+		if err != nil {
+			return err
+		}
+		ts := `"mtime":"2020-01-02T03:04:05Z","atime":"2020-01-02T03:04:05Z","ctime":"2020-01-02T03:04:05Z","uid":0,"gid":0`
+		root := fmt.Sprintf(`{"nodes":[{"name":"keep1","type":"file","mode":420,%s,"size":%d,"content":["%s"]},{"name":"sub","type":"dir","mode":2147484141,%s,"subtree":"%s"},{"name":"zkeep2","type":"file","mode":420,%s,"size":%d,"content":["%s"]}]}`+"\n",
+			ts, len(d1), i1, ts, badID, ts, len(d2), i2)
+		rootID, _, _, err = up.SaveBlob(ctx, restic.TreeBlob, []byte(root), restic.ID{}, false)
+		return err
+	})
+	if err != nil {
+		return err
+	}
+	sn, err := data.NewSnapshot([]string{"/crafted"}, nil, "verif", time.Date(2020, 1, 2, 3, 4, 5, 0, time.UTC))
+	if err != nil {
+		return err
+	}
+	sn.Tree = &rootID
+	_, err = data.SaveSnapshot(ctx, repo, sn)
+	return err
+}
+
 // c34Cli runs a command; a panic of the code under test is reported as an error of the command
 func c34Cli(e *venv, args ...string) (so, se string, err error) {
 	defer func() {
@@ -116,6 +157,18 @@ func c34Scenario(c *vctx, rng *vrng, num int, force string) error {
 	}
 	ctx, cancel := context.WithCancel(context.Background())
 	defer cancel()
+	crafted := ""
+	if strings.HasPrefix(force, "crafted-") {
+		crafted = force
+		force = "none"
+		r0, err := e.openRepo(ctx)
+		if err != nil {
+			return err
+		}
+		if err := c34Craft(ctx, r0, rng, crafted); err != nil {
+			return fmt.Errorf("crafting: %w", err)
+		}
+	}
 	repo, err := e.openRepo(ctx)
 	if err != nil {
 		return err
@@ -142,12 +195,18 @@ func c34Scenario(c *vctx, rng *vrng, num int, force string) error {
 		}
 		it, err := data.LoadTree(ctx, repo, id)
 		if err != nil {
-			return err
+			// not loadable even on the undamaged repository (crafted tree): known id, no content
+			trees[id] = nil
+			treeOrder = append(treeOrder, id)
+			return nil
 		}
 		var nodes []*data.Node
 		for item := range it {
 			if item.Error != nil {
-				return item.Error
+				// undecodable part-way through: for the documented rule this is an unreadable tree
+				trees[id] = nil
+				treeOrder = append(treeOrder, id)
+				return nil
 			}
 			nodes = append(nodes, item.Node)
 		}
@@ -220,7 +279,7 @@ func c34Scenario(c *vctx, rng *vrng, num int, force string) error {
 	}
 	// choose targets and damage
 	ntarget := 1
-	if len(packs) > 1 && rng.chance(40) {
+	if len(packs) > 1 && rng.chance(40) && crafted == "" {
 		ntarget = 2
 	}
 	perm := rng.intn(len(packs))
@@ -585,6 +644,9 @@ func c34Scenario(c *vctx, rng *vrng, num int, force string) error {
 		coqList(packTerms), coqList(idTerms), c34New, coqBool(errA != nil), coqList(opsA), coqList(after), coqList(packsAfter),
 		coqList(storeTerms), coqList(sizeTerms), coqBool(errB != nil), coqList(snapTerms), coqList(opsB), coqBool(errC != nil))
 	kind := "dmg-" + dmg[targets[0]].op
+	if crafted != "" {
+		kind = crafted
+	}
 	if len(humanI) > 0 {
 		kind += "+idx"
 	}
@@ -605,7 +667,7 @@ func engineC34(c *vctx) error {
 	repository.VerifC34SetLockWait(time.Millisecond)
 	defer os.RemoveAll(filepath.Join("/dev/shm", fmt.Sprintf("verif-c34-%d", os.Getpid())))
 	num := 0
-	for _, f := range []string{"blobflip", "hdrflip", "trunc", "delete", "none", "partial-index", "blobflip", "trunc"} {
+	for _, f := range []string{"blobflip", "hdrflip", "trunc", "delete", "none", "partial-index", "blobflip", "trunc", "crafted-undecodable-tree", "crafted-midlist-decode-error"} {
 		if err := c34Scenario(c, c.rng.fork(), num, f); err != nil {
 			return fmt.Errorf("scenario %d: %w", num, err)
 		}
